@@ -5,6 +5,7 @@ From Coq Require Import List Bool NArith.
 Import ListNotations.
 Require Import Stab Act Spec SpecProofs GF2.
 From Coq Require Import String.
+Require Pauli Collapse Sem Refine Run FrameRun RevTrack.
 Local Open Scope string_scope.
 
 (* a detector whose sign form has no coin dependence takes the same value for EVERY assignment of the collapse coins:
@@ -26,3 +27,16 @@ Example C19_nonvacuous :
                      SU2 cx 0 1; SU2 cx 2 1; SMeasReset BZ 1 false; SDetector [1; 2]] in
   map snd (dets r) = [0%N; 0%N].
 Proof. vm_compute. reflexivity. Qed.
+
+(* Soundness of the determinism criterion applied to the generated circuits' detectors: from the all-zero state, a detector whose
+   back-propagated sensitivity never anticommutes with a measured operator and has no X part at the start takes the same value in
+   every run the semantics allows (Clifford steps and Hermitian measurements, any number). *)
+Theorem C19_determinism_criterion_is_sound :
+  forall (n : nat) (l la : list (Run.op * option bool)) (s' : (Pauli.pauli -> Pauli.pauli) * (Pauli.pauli -> Pauli.pauli))
+         (S' : Sem.state) (d : list bool),
+  Forall (fun x => FrameRun.ok_op n (fst x)) l ->
+  Run.sim_run n (fun P => P, fun P => P) l s' -> Run.sem_run (fun P => Collapse.Zplus P) la S' -> map fst la = map fst l ->
+  RevTrack.gauge_ok n l d -> Collapse.xfreeb (snd (RevTrack.revtrack n l d)) = true ->
+  RevTrack.par_rec la d = RevTrack.par_rec l d.
+Proof. exact RevTrack.detector_deterministic_zero_state. Qed.
+Print Assumptions C19_determinism_criterion_is_sound.
